@@ -257,7 +257,7 @@ def c20(run):
     run.validate("misc", t, "Trace_misc", label="(V) EIRP index for integral/half-integral/random float32 powers, all 256 indices", chunk=50000)
     run.exhaustive.append("all 256 TXParamSetup EIRP index bytes")
     run.require_kinds("misc/gps", "misc/gpsback", "misc/gpspair", "misc/airtime", "misc/eirp", "misc/eirpdec")
-    run.rc = run.finish(assumptions=["published leap-second list (IERS) transcribed in spec/lorawan/Misc.tla", "airtime tolerance: the library truncates the symbol time to whole ns, |lib - exact| <= #symbols + preamble + 2 ns is accepted; the symbol COUNT must be exact",
+    run.rc = run.finish(assumptions=["published leap-second list (IERS) transcribed in spec/lorawan/Misc.tla", "airtime tolerance: the library truncates the symbol time to whole ns, |lib - exact| <= #payload symbols + preamble + 6 ns is accepted; the symbol COUNT must be exact",
                                      "the harness splits Go durations/instants into (days, seconds, ns) and base-10^4 limbs by plain integer division", "sensitivity package is not in the statement and not modelled"])
 
 
